@@ -3,6 +3,7 @@ import itertools
 import json
 import os
 import random
+import re
 import subprocess
 import tempfile
 from concurrent.futures import ThreadPoolExecutor
@@ -32,7 +33,18 @@ RULE = ('every sequence of import statements of length <= k (exhaustive) over th
         'min/max, content, ... with selectors aimed at their string form; string nodes of every Beautiful Soup class and of '
         'user subclasses inserted in elements and at document level (:empty, :-soup-contains, :dir, :root, ...); tags made by '
         'new_tag / Tag() / a Tag subclass, with namespaces; nested BeautifulSoup objects; detached subtrees; copies; and random '
-        'documents with random edits and selectors.')
+        'documents with random edits and selectors. CHARACTER CLASSES (group `chars`): every character that some definition calls '
+        'white space (the 29 of str.isspace, 5 of them CSS white space) plus control / format characters, letters whose case '
+        'mapping is not the ASCII one (Kelvin sign, long s, dotted / dotless i, sharp s, full-width, ...) and non-ASCII digits, '
+        'at every place where the matcher or the selector parser classifies characters: string-valued class / rel / headers / id '
+        '/ ... that reach soupsieve UNSPLIT (XML parser, builders made with multi_valued_attributes=None or a custom list, values '
+        'assigned as str / str subclass / string node / inside a replaced attrs mapping / given to new_tag) with class, id and '
+        '[a~=w] selectors aimed at every reading of the word boundaries; attribute values under the `i` flag, attribute and '
+        'element names made through the API, type / lang / dir / checked / http-equiv spelled in other case; text nodes made of '
+        'each character (:empty, :root, :-soup-contains, :placeholder-shown, :dir with dir=auto and first-strong characters of '
+        'many scripts); number / date / time values of inputs written with other digits, separators and padding '
+        '(:in-range / :out-of-range); and the selector text itself (each character as combinator / padding / escape terminator, '
+        'keywords and flags in other case, nth expressions with other digits).')
 
 ENTRY = ['import bs4', 'from bs4 import BeautifulSoup', 'import bs4.element', 'import soupsieve', 'import soupsieve.css_match',
          'import soupsieve.css_parser', 'import soupsieve.css_types', 'from soupsieve import *']
@@ -316,6 +328,11 @@ def _call(how, api, scope, sel, ns, limit, flags):
     raise ValueError(api)
 
 
+def _kw(kw):
+    """Keyword arguments for the tree builder ({'multi_valued_attributes': None | {tag: [names]}})."""
+    return dict(kw or {})
+
+
 def _run_case(case):
     """[answers through Beautiful Soup, answers through soupsieve] on ONE tree built by the parser and the edits."""
     notes = []
@@ -323,7 +340,7 @@ def _run_case(case):
     try:
         with _warnings.catch_warnings(record=True) as wlog:
             _warnings.simplefilter('always')
-            soup = _BS(case['m'], case['p'])
+            soup = _BS(case['m'], case['p'], **_kw(case.get('kw')))
             detached = None
             el0 = _find(soup, case['el']) if case.get('el') else None       # the element the edits are about, found before they change it
             for ed in case['e']:
@@ -659,6 +676,287 @@ def programs_random(r, n):
     return out
 
 
+# ---------------------------------------------------------------------------------------------------------------------
+# Character classes.  What counts as white space, which letters are the same letter in another case, what a digit is: in the
+# matcher and in the selector parser each of these is a CONSTANT of the library (a compiled pattern, a lower-casing function, a
+# table), fixed when the modules are executed, i.e. at import time, which is the one moment at which the two packages see each
+# other half-built.  Such a constant can only show on documents and selectors that contain a character on which two plausible
+# definitions differ (CSS white space is five characters, str.isspace() / \s know 29; util.lower is ASCII-only, str.lower is
+# not; [0-9] is ten characters, \d several hundred), AND whose value reaches soupsieve unsplit / unfolded: a `class` that is
+# ONE string (XML parser, a builder made with multi_valued_attributes=None, a value assigned by the program), text nodes,
+# names given to new_tag, the selector text itself.  The generators below put every such character at every such place; the
+# verdict is the same as for all other programs (answers equal in every import order and through both packages).
+# ---------------------------------------------------------------------------------------------------------------------
+CSS_WS = ' \t\n\r\f'
+SPACES = [chr(i) for i in range(0x3100) if chr(i).isspace()]        # white space for SOME definition (str.isspace): 29 characters, 5 of them CSS white space
+NOT_SPACES = ['\x00', '\x08', '\x7f', '\xad', '\u180e', '\u200b', '\u200d', '\u2060', '\ufeff']       # control / format characters: white space for no current definition
+# (variant, plain): letters that some case mapping (lower / upper / casefold, Unicode-aware re.I) identifies with `plain`, and ASCII-only folding does not
+FOLDS = [('\u212a', 'k'), ('\u017f', 's'), ('\u0130', 'i'), ('\u0131', 'i'), ('\uff21', 'a'), ('\u00c9', '\u00e9'), ('\u03a3', '\u03c3'), ('\u03c2', '\u03c3'),
+         ('\u00df', 'ss'), ('\u2126', '\u03c9'), ('\ufb01', 'fi'), ('\u01c5', '\u01c6'), ('\u1e9e', '\u00df')]
+DIGIT3 = ['3', '\u0663', '\uff13', '\u0be9', '\u00b3', '\u2462', '\u2163']      # "3": ASCII, Arabic-Indic, full-width, Tamil (all \d / int()), superscript, circled, Roman (isdigit / isnumeric only)
+FIRST_STRONG = ['\u05d0', '\u0628', '\u0780', '\u07ca', '\u0710', '\U0001e900', '\U00010900', '\u0663', '3', 'A', '\uff21', '\u4e2d', '\u200e', '\u200f', '\u202b', '\u2067',
+                '\u0300', '\xa0', '\u2028', '\ufb1d', '\u06dd']          # text of a dir=auto element: letters R / AL / L, numbers, marks, embeddings, separators
+
+
+def xml_ok(s):
+    return all(ch in '\t\n\r' or 0x20 <= ord(ch) <= 0xd7ff or 0xe000 <= ord(ch) <= 0xfffd or ord(ch) >= 0x10000 for ch in s)
+
+
+def xml_text(s):
+    return ''.join(ch if ch.isascii() and ch.isalnum() else '&#%d;' % ord(ch) for ch in s)
+
+
+def html_text(s):
+    return s.replace('&', '&amp;').replace('<', '&lt;').replace('>', '&gt;').replace('"', '&quot;')
+
+
+def readings(v):
+    """The words of `v` under each reading of "white space": the five CSS characters; whatever str.split() splits at; anything
+    that is not a letter or a digit.  Only used to AIM selectors; the verdict never depends on it."""
+    out = []
+    for w in [w for w in re.split('[ \t\n\r\f]+', v) if w] + v.split() + [w for w in re.split(r'[\W\u180e]+', v) if w]:
+        if w not in out:
+            out.append(w)
+    return out
+
+
+def word_queries(r, attr, v, tag, full, el_apis=True):
+    """(api, selector) pairs that hinge on how the string `v` of attribute `attr` is cut into words."""
+    a = attr
+    ws = readings(v)
+    must, may = [], [f'[{a}={gen.q(v)}]', f'{tag}[{a}]', f'[{a}~={gen.q(v)}]', f'[{a}={gen.q(" ".join(ws[-2:]))}]', f'[{a}!={gen.q(v)}]']
+    for w in ws[-2:]:
+        must.append(f'[{a}~={gen.q(w)}]')
+    for w in ws:
+        may += [f'{tag}[{a}|={gen.q(w)}]', f'[{a}^={gen.q(w)}]', f'[{a}$={gen.q(w)}]', f'[{a}~={gen.q(w)} i]', f'[{a}~={gen.q(w.swapcase())} i]']
+    if a.lower() == 'class':
+        must += ['.' + css_ident(w) for w in ws] + [f'{tag}:not(.{css_ident(w)})' for w in ws[-2:]]
+        may += [''.join('.' + css_ident(w) for w in ws[-2:]), f':is({tag}, b).{css_ident(ws[-1])}' if ws else '*', f'{tag}:nth-child(1 of .{css_ident(ws[-1])})' if ws else '*']
+    if a.lower() == 'id':
+        must += ['#' + css_ident(w) for w in ws]
+    sels = must + (may if full else r.sample(may, 4))
+    out = [(r.choice(SEL_APIS), s) for s in sels]
+    if el_apis:
+        out += [(r.choice(EL_APIS), s) for s in r.sample(must, min(2, len(must)))]
+    return out
+
+
+WORD_ROUTES_STR = ['xml', 'none:html.parser', 'none:lxml', 'none:html5lib', 'api-s', 'api-strsub', 'api-attrs', 'api-tag', 'api-node']
+WORD_ROUTES_LIST = ['default:html.parser', 'default:lxml', 'default:html5lib', 'custom:html.parser', 'api-list']
+
+
+def word_program(r, attr, v, route, full):
+    """One program in which attribute `attr` of one element holds the string `v`, got there by `route`:
+    xml               the XML parser (never splits attribute values);
+    none:<parser>     an HTML builder told not to split (multi_valued_attributes=None);
+    default:<parser>  an HTML builder with its own list of multi-valued attributes (Beautiful Soup splits `class`, `rel`, ... itself);
+    custom:<parser>   an HTML builder with a program-supplied list;
+    api-*             assigned by the program: plain str, str subclass, inside a replaced attrs mapping, to new_tag, a string node, inside a list."""
+    kind, _, parser = route.partition(':')
+    if kind == 'xml' and not xml_ok(v):
+        kind, parser = 'api-s', 'xml'
+    if kind != 'xml' and not parser:
+        parser = r.choice(PARSERS)
+    if kind in ('none', 'default', 'custom') and '\x00' in v:
+        kind = 'api-s'
+    if kind == 'xml':
+        m = f'<root><p id="p" {attr}="{xml_text(v)}">x</p><span id="s" {attr}="a b">y</span><b id="b" {attr}="b">z</b></root>'
+        case = {'m': m if attr != 'id' else m.replace('id="p" ', '').replace('id="s" ', '').replace('id="b" ', ''), 'p': 'xml', 'e': [], 'el': ['id', 'p']}
+        tag = 'p'
+    elif kind in ('none', 'default', 'custom'):
+        m = f'<div id="d"><p id="p" {attr}="{html_text(v)}">x</p><span id="s" {attr}="a b">y</span><b id="b" {attr}="b">z</b></div>'
+        case = {'m': m if attr != 'id' else m.replace('id="p" ', '').replace('id="s" ', '').replace('id="b" ', ''), 'p': parser, 'e': [], 'el': ['id', 'p']}
+        if kind == 'none':
+            case['kw'] = {'multi_valued_attributes': None}
+        elif kind == 'custom':
+            case['kw'] = {'multi_valued_attributes': {'*': ['data-w', 'headers'], 'p': ['title']}}
+        tag = 'p'
+    else:
+        tag, tgt = 'span', ['id', 's']
+        if kind == 'api-tag':
+            eds = [['tag', ['id', 'p'], r.choice(['new_tag', 'Tag', 'TagB', 'UTag']), 'span', None, None, [['id', ('s', 'n')], [attr, ('s', v)]] if attr != 'id' else [[attr, ('s', v)]],
+                    r.choice([None, 'q']), r.choice(['append', 'after', 'before'])]]
+            tgt = ['id', 'n']
+        elif kind == 'api-attrs':
+            eds = [['attrs', tgt, r.choice(['dict', 'OrderedDict', 'AttributeDict', 'HTMLAttributeDict', 'XMLAttributeDict']), [['title', ('s', 't')], [attr, ('s', v)]]]]
+        else:
+            val = {'api-s': ('s', v), 'api-strsub': ('strsub', v), 'api-node': (r.choice(['NavigableString', 'UText', 'CData']), v),
+                   'api-list': (r.choice(CONTAINERS), [('s', v), ('s', 'c')])}[kind]
+            eds = [['attr', tgt, attr, val]]
+        case = {'m': base_doc(parser), 'p': parser, 'e': eds, 'el': tgt}
+    if attr == 'id':
+        case.pop('el', None)
+    case['g'] = 'chars'
+    case['q'] = word_queries(r, attr, v, tag, full, el_apis=attr != 'id')
+    return case
+
+
+def programs_words(r, full):
+    """String-valued word-list attributes with every kind of separator between (and around) the words."""
+    out = []
+    shapes = ['a{c}b', 'a{c}b', '{c}a{c}b{c}', 'a{c}{c}b', 'a{c} b', 'a {c}b', 'a{c}b c', 'c a{c}b']
+    for c in SPACES + NOT_SPACES:
+        jobs = [('class', route) for route in (WORD_ROUTES_STR + WORD_ROUTES_LIST if full else [r.choice(WORD_ROUTES_STR)] + ([r.choice(WORD_ROUTES_LIST)] if r.random() < 0.2 else []))]
+        others = ['rel', 'headers', 'data-w', 'id', 'CLASS', 'title', 'class']
+        jobs += [(a, r.choice(WORD_ROUTES_STR + WORD_ROUTES_LIST)) for a in (others if full else ([r.choice(others)] if r.random() < 0.35 else []))]
+        for attr, route in jobs:
+            out.append(word_program(r, attr, r.choice(shapes).replace('{c}', c), route, full))
+    return out
+
+
+def programs_case(r, full):
+    """Letters whose case mapping is not the ASCII one, where names and values are compared without regard to case."""
+    out = []
+    k = 0
+    for var, plain in (FOLDS if full else r.sample(FOLDS, 8)):
+        k += 1
+        parser = PARSERS[k % 4]
+        v, p = 'o' + var, 'o' + plain
+        # attribute values compared with the `i` flag
+        out.append({'g': 'chars', 'm': base_doc(parser), 'p': parser, 'el': ['id', 's'],
+                    'e': [['attr', ['id', 's'], 'title', ('s', v)], ['attr', ['id', 'p'], 'title', ('s', p)], ['attr', ['id', 'l'], 'title', ('s', p.upper())]],
+                    'q': [(r.choice(SEL_APIS + EL_APIS), s) for s in [f'[title={gen.q(v)} i]', f'[title={gen.q(p)} i]', f'[title={gen.q(p.upper())} i]', f'[title={gen.q(v)}]', f'[title={gen.q(v)} s]',
+                                                                    f'[title^={gen.q(p)} i]', f'[title*={gen.q(var)} i]', f'[title~={gen.q(p)} i]', f'[title|={gen.q(p)} i]', f'[title!={gen.q(p)} i]',
+                                                                    f'[title$={gen.q(plain)} i]', f'[TITLE={gen.q(p)}]']]})
+        # attribute NAMES (the parsers fold them, the API does not) and element names made through the API
+        k += 1
+        parser = PARSERS[k % 4]
+        an = 'data-' + var
+        names = [var + 'x', (plain + 'x').upper(), plain + 'x']
+        out.append({'g': 'chars', 'm': base_doc(parser), 'p': parser, 'el': ['id', 'n'], 'ns': NSMAP,
+                    'e': [['attr', ['id', 's'], an, ('s', '1')], ['attr', ['id', 'p'], an.upper(), ('s', '1')], ['attr', ['id', 'l'], 'data-' + plain, ('s', '1')],
+                          ['tag', ['id', 'p'], r.choice(['new_tag', 'Tag', 'TagB', 'UTag']), r.choice(names), None, None, [['id', ('s', 'n')]], 'q', r.choice(['append', 'after'])]],
+                    'q': [(r.choice(SEL_APIS), s) for s in [f'[{an}]', f'[data-{plain}]', f'[DATA-{plain.upper()}]', f'[{an.upper()}]', f'span[data-{plain}="1"]', f'[data-{plain}="1" i]'] + names +
+                          [f'*|{names[0]}', f'|{names[2]}', f'{names[2]}:-soup-contains("q")', f':is({names[1]}, em)']] + [(r.choice(EL_APIS), s) for s in names]})
+    # names and values that HTML semantics read without regard to case: type, lang, dir, checked, http-equiv, ... with variants
+    sem = []
+    for t in ['CHECKBOX', 'Checkbox', 'chec\u212abox', 'RADIO', 'rad\u0131o', 'rad\u0130o', 'RAD\u0130O', 'pa\u017f\u017fword', 'TEXT', 'te\uff58t', '\u017fubmit', 'SUBMIT', 'checkbox ', 'checkbox\xa0', '\u2003radio', 'text\x0b']:
+        sem.append(([['attr', ['id', 'i'], 'type', ('s', t)], ['attr', ['id', 'i'], 'checked', ('s', '')], ['attr', ['id', 'i'], 'name', ('s', 'n')]],
+                    [':checked', ':indeterminate', ':default', ':read-write', ':read-only', 'input:placeholder-shown', '[type=checkbox]', '[type="RADIO"]', f'[type={gen.q(t)} s]', '[type=text i]', ':enabled', 'input:dir(ltr)']))
+    for names in [['TYPE', 'CHECKED'], ['Type', 'chec\u212aed'], ['type', 'CHEC\u212aED'], ['t\u0131pe', 'checked'], ['TYPE', '\u017felected']]:
+        sem.append(([['delattr', ['id', 'i'], 'type'], ['attr', ['id', 'i'], names[0], ('s', 'checkbox')], ['attr', ['id', 'i'], names[1], ('s', '')]],
+                    [':checked', ':default', ':indeterminate', '[type]', '[checked]', f'[{names[1]}]', f'[{names[0]}=checkbox]', ':read-only']))
+    for an, lv in [('lang', 'EN-us'), ('LANG', 'en'), ('Lang', 'EN'), ('lang', 'tr-\u0130'), ('lang', 'TR-I'), ('lang', 'de-\u017f'), ('lang', 'e\uff4e'), ('lan\u0261', 'en'), ('xml:lang', 'EN'),
+                   ('lang', 'en '), ('lang', 'en\xa0'), ('lang', '\u2003en'), ('lang', 'en\u2028us'), ('lang', 'en\x0b')]:
+        sem.append(([['attr', ['id', 's'], an, ('s', lv)]],
+                    ['span:lang(en)', 'span:lang(EN)', 'span:lang(en-US)', 'span:lang("*-us")', 'span:lang(tr-i)', 'span:lang("tr-\u0131")', 'span:lang("TR-\u0130")', 'span:lang(de-s)', 'span:lang("de-\u017f")',
+                     'span:lang("DE-\u017f")', 'span:lang("e\uff4e")', 'span:lang("")', f'span:lang({gen.q(lv)})', f'[{an}]', '[lang|=en i]', '[lang|=en]']))
+    for an, dv, text in [('dir', 'RTL', 'a'), ('DIR', 'rtl', 'a'), ('dir', 'Auto', '\u05d0'), ('Dir', 'AUTO', '\u05d0'), ('d\u0131r', 'rtl', 'a'), ('dir', 'rt\u029f', 'a'), ('dir', 'rtl ', 'a'), ('dir', 'rtl\xa0', 'a'),
+                         ('dir', '\u2003auto', '\u05d0'), ('dir', 'LTR', '\u05d0')]:
+        sem.append(([['string', ['id', 's'], text], ['attr', ['id', 's'], an, ('s', dv)]], ['span:dir(rtl)', 'span:dir(ltr)', 'span:dir(RTL)', f'[{an}=rtl i]', '[dir]', ':dir(rtl)']))
+    for he, cv in [('CONTENT-LANGUAGE', 'DE'), ('Content-Language', 'de'), ('content-language', 'de, fr'), ('content-language', 'de\xa0'), ('content-language', '\u2003de'), ('content-language', 'de\x0b'),
+                   ('content-language ', 'de'), ('content\u2010language', 'de'), ('CONTENT-LANGUAGE', 'tr-\u0130')]:
+        sem.append(([['attr', ['id', 'm'], 'http-equiv', ('s', he)], ['attr', ['id', 'm'], 'content', ('s', cv)]],
+                    ['p:lang(de)', 'p:lang(DE)', 'p:lang(en)', 'p:lang(fr)', 'p:lang(tr-i)', ':root:lang(de)', 'p:lang("")', '[http-equiv=content-language i]', '[content=de i]']))
+    if not full:
+        sem = r.sample(sem, 22)
+    for eds, sels in sem:
+        k += 1
+        parser = PARSERS[k % 3]
+        out.append({'g': 'chars', 'm': base_doc(parser), 'p': parser, 'e': eds, 'q': [(r.choice(SEL_APIS), s) for s in sels]})
+    # class names and ids differing in case only, with and without a doctype
+    for parser in PARSERS:
+        for doctype in (['<!DOCTYPE html>', ''] if parser != 'xml' else ['']):
+            var, plain = r.choice(FOLDS)
+            m = f'<div><p class="A b {var}">x</p><p class="a B {plain}" id="Q">y</p><p class="\u00c9" id="q">z</p><p class="a&#160;b" id="\u212a">w</p></div>'
+            out.append({'g': 'chars', 'm': doctype + m, 'p': parser, 'e': [],
+                        'q': [(r.choice(SEL_APIS), s) for s in ['.a', '.A', '.b.A', '.B', '.' + var, '.' + plain, '.' + plain.upper(), '.\u00e9', '.\u00c9', '#q', '#Q', '#k', '#K', '#\u212a', '[class~=a i]',
+                                                                '[id=q i]', '[id=k i]', 'P', 'p:not(.a)', '.a.b', '.a\\a0 b']]})
+    return out
+
+
+def programs_text(r, full):
+    """Text nodes made of / containing each of the characters, where the matcher asks "is this only white space?", "does the
+    text contain ...?", "which is the first strong character?", "is this a number / a date?"."""
+    out = []
+    k = 0
+    for c in SPACES + NOT_SPACES:
+        k += 1
+        parser = PARSERS[k % 4]
+        sels = ['i:empty', 'i:not(:empty)', f'p:-soup-contains({gen.q("a" + c + "b")})', 'p:-soup-contains("a b")', f'p:-soup-contains-own({gen.q(c + "b")})', f'#d:-soup-contains-own({gen.q(c)})',
+                ':root', ':root > *', '#d:root', 'textarea:placeholder-shown', 'i:dir(ltr)', 'i:dir(rtl)', 'p:dir(rtl)', 'i:only-child', 'i:first-child', 'em:empty', 'textarea:dir(ltr)',
+                f':-soup-contains("x", {gen.q(c)})']
+        via_markup = r.random() < 0.5 and c != '\x00' and (parser != 'xml' or xml_ok(c))
+        enc_ = (xml_text if parser == 'xml' else html_text)
+        ta = '' if parser == 'xml' else '<textarea id="t" dir="auto" placeholder="h">{t}</textarea>'
+        if via_markup:
+            body = f'<div id="d">{enc_(c)}<i id="e" dir="auto">{enc_(c)}</i>{enc_(c)}<p id="p" dir="auto">a{enc_(c)}b\u05d0</p><em>{enc_(c + c)}</em>' + ta.replace('{t}', enc_(c)) + '</div>'
+            m = enc_(c) + body + enc_(c) if (r.random() < 0.5 and parser != 'xml') else body
+            eds = []
+        else:
+            m = '<div id="d"><i id="e" dir="auto"></i><p id="p" dir="auto"></p><em></em>' + ta.replace('{t}', '') + '</div>'
+            cls = r.choice(['NavigableString', 'NavigableString', 'UText', 'CData', 'PreformattedString'])
+            eds = [['str', ['id', 'e'], 'NavigableString', c, 'append'], ['str', ['id', 'e'], cls, c, r.choice(['before', 'after'])], ['str', ['id', 'p'], 'NavigableString', 'a' + c + 'b\u05d0', 'append'],
+                   ['str', ['n', 2 if parser in ('html.parser', 'xml') else 4], 'NavigableString', c + c, 'append'], ['str', None, 'NavigableString', c, r.choice(['append', 'insert0'])]]
+            if parser != 'xml':
+                eds.append(['str', ['id', 't'], 'NavigableString', c, 'append'])
+        qs = [(r.choice(SEL_APIS), s) for s in (sels if full else r.sample(sels, 7))]
+        out.append({'g': 'chars', 'm': m, 'p': parser, 'e': eds, 'el': ['id', 'e'], 'q': qs + [(r.choice(EL_APIS), s) for s in ('i:empty', ':root')]})
+    # first strong character of a dir=auto element / text control
+    for parser in PARSERS:
+        body = ''.join(f'<p dir="auto" id="k{i}">{xml_text(" 1." + c + "a\u05d0")}</p>' for i, c in enumerate(FIRST_STRONG))
+        if parser != 'xml':
+            body += ''.join(f'<input dir="auto" type="text" value="{xml_text(c + "a\u05d0")}">' for c in FIRST_STRONG[:8]) + ''.join(f'<textarea dir="auto">{xml_text(c)}</textarea>' for c in FIRST_STRONG[8:14])
+        out.append({'g': 'chars', 'm': f'<div dir="ltr">{body}</div>', 'p': parser, 'e': [],
+                    'q': [('select', 'p:dir(rtl)'), ('select', 'p:dir(ltr)'), ('select', ':dir(rtl)'), ('select', 'input:dir(ltr)'), ('select', 'textarea:dir(rtl)'), ('select', ':not(:dir(ltr), :dir(rtl))')]})
+    # numbers, dates and times written with other digits / other separators / white space around them
+    ranged = []
+    for d in DIGIT3:
+        ranged += [('number', '1', '5', d), ('number', '1', '5', '-' + d), ('number', d, '5', '4'), ('range', '1', d + '0', '7'), ('number', '1', '5', d + '.' + d), ('date', '2020-01-01', '2020-12-31', f'2020-0{d}-15'),
+                   ('time', '01:00', '05:00', f'0{d}:30'), ('month', '2020-01', '2020-05', f'2020-0{d}'), ('week', '2020-W01', '2020-W05', f'2020-W0{d}')]
+    for c in SPACES + NOT_SPACES[:4]:
+        ranged += [('number', '1', '5', '3' + c), ('number', '1', '5', c + '3'), ('date', '2020-01-01', '2020-12-31', '2020-06-15' + c), ('time', '01:00', '05:00', c + '03:30')]
+    ranged += [('week', '2020-W01', '2020-W05', '2020-w03'), ('week', '2020-w01', '2020-W05', '2020-W03'), ('week', '2020-W01', '2020-W05', '2020-\uff3703'), ('datetime-local', '2020-01-01T00:00', '2020-12-31T00:00', '2020-06-15t12:30'),
+               ('datetime-local', '2020-01-01T00:00', '2020-12-31T00:00', '2020-06-15T12:30'), ('number', '1', '5', '3E0'), ('number', '1', '5', '3e\u0660'), ('number', '1', '5', '+3'), ('number', '1', '5', '\u22123'),
+               ('date', '2020-01-01', '2020-12-31', '2020\u201006\u201015'), ('time', '01:00', '05:00', '03\uff1a30'), ('NUMBER', '1', '5', '3'), ('Number', '1', '5', '9'), ('\u0274umber', '1', '5', '9')]
+    for parser in PARSERS[:3]:          # all of them as controls of one parsed document (the characters raw in the markup) ...
+        body = ''.join(f'<input type="{html_text(t)}" min="{html_text(lo)}" max="{html_text(hi)}" value="{html_text(val)}">' for t, lo, hi, val in ranged if '\x00' not in t + lo + hi + val)
+        out.append({'g': 'chars', 'm': f'<form>{body}</form>', 'p': parser, 'e': [],
+                    'q': [('select', ':in-range'), ('select', ':out-of-range'), ('select', 'input:not(:in-range, :out-of-range)')]})
+    for t, lo, hi, val in (ranged if full else r.sample(ranged, 10)):          # ... and one at a time, assigned through the API
+        k += 1
+        parser = PARSERS[k % 3]
+        out.append({'g': 'chars', 'm': base_doc(parser), 'p': parser, 'el': ['id', 'i'],
+                    'e': [['attr', ['id', 'i'], 'type', ('s', t)], ['attr', ['id', 'i'], 'min', ('s', lo)], ['attr', ['id', 'i'], 'max', ('s', hi)], ['attr', ['id', 'i'], 'value', ('s', val)]],
+                    'q': [('select', ':in-range'), ('select', ':out-of-range'), (r.choice(EL_APIS), 'input:not(:in-range, :out-of-range)')]})
+    return out
+
+
+SELECTOR_SHAPES = ['div{c}p', 'div{c}>{c}p', 'p{c},{c}span', ':is({c}p{c},{c}span)', 'p:nth-child({c}1{c})', 'span:nth-child(2n{c}+{c}0)', 'span:nth-child({c}even)', '[{c}id{c}={c}p{c}]', '[class~=a{c}]',
+                   '[class="a{c}b"]', '[class~="a{c}b"]', '[class=a{c}b]', ':lang({c}en{c})', 'p:not({c}.a{c})', 'p:nth-child(1 of{c}.a)', 'p:nth-child(1{c}of .a)', ':-soup-contains("x",{c}"y")',
+                   ':-soup-contains({c}x{c})', '{c}p', 'p{c}', 'p.a{c}.b', 'div:has({c}+{c}span)', 'p{c}+{c}span', 'p{c}~{c}a', 'p{c}||{c}a', 'span:dir({c}ltr{c})', '[class="a\\{c}b"]', '.\\61{c}.b', 'p.\\61{c}',
+                   '#\\000070{c}', '[id=p{c}i]', '[id="P"{c}i]', '[id="p"{c}s{c}]', '/*{c}*/p', 'p/*{c}*/.a', 'svg|*,{c}x|e', 'x{c}|e', 'x|{c}e', 'div >{c}:scope', '.a{c}b', 'p:nth-child(n{c}of{c}p)',
+                   ':not({c})', ':is({c})', 'p:is()', 'a:any-link{c}']
+
+
+def programs_selectors(r, full):
+    """The selector TEXT: each character as separator / padding at every place where the grammar allows (or forbids) white space;
+    keywords, names and flags in other case, with the letters of FOLDS; numbers written with other digits."""
+    out = []
+    k = 0
+    for c in SPACES + NOT_SPACES:
+        k += 1
+        parser = PARSERS[k % 4]
+        out.append({'g': 'chars', 'm': base_doc(parser), 'p': parser, 'ns': NSMAP, 'el': ['id', 'p'], 'e': [],
+                    'q': [(r.choice(SEL_APIS + EL_APIS), s.replace('{c}', c)) for s in (SELECTOR_SHAPES if full else r.sample(SELECTOR_SHAPES, 8))]})
+    sels = ['DIV > P', 'P.a.b', 'p.A', ':NOT(.a)', 'p:Nth-Child(1)', 'span:nth-child(EVEN)', 'span:nth-child(2N+0)', 'p:nth-child(1 OF .a)', '[ID=p]', '[id=P I]', '[id=P i]', '[id=p S]', '[TYPE=CHECKBOX]', ':LANG(EN)',
+            'p:lang(EN)', 'p:Dir(LTR)', ':ROOT', ':iS(p, SPAN)', ':Has(> P)', ':-SOUP-CONTAINS("x")', ':-soup-contains("X")', 'X|E', 'x|E', 'SVG|*', ':Checked, :Indeterminate', ':ANY-LINK', 'A[REL~=NOFOLLOW]',
+            '.\\41', '#\\50', '\\50', '\\70', 'p:NOT(:EMPTY)', ':Where(P)', ':Scope > *', ':Nth-Last-Of-Type(1)', ':Only-Child', 'Input:Enabled']
+    var = [':chec\u212aed', ':lin\u212a', ':any-lin\u212a', ':\u0131s(p)', ':\u0130s(p)', ':i\u017f(p)', ':ha\u017f(p)', ':nth-la\u017ft-child(1)', ':fir\u017ft-child', 'p:nth-ch\u0131ld(1)', '[id=p \u0131]', '[id=P \u0130]', '[id=p \u017f]',
+           'p:d\u0131r(ltr)', 'p:dir(\u029ftr)', 'p:lang(e\uff4e)', '\u212a', 'd\u0131v', 'D\u0130V', '\u017fpan', '\uff50', 'span:nth-child(e\u1e7een)', ':\u017fcope', ':-\u017foup-contains("x")', 'p:nth-child(1 o\uff46 .a)',
+           ':roo\uff54', ':disab\u029fed', 'p:\u0274ot(.a)', ':enab\u217ced', '\u217fiv']
+    digits = ['p:nth-child(\u0661)', 'span:nth-child(\u0662n+\u0660)', 'span:nth-child(\uff12)', ':nth-child(\u00b2)', 'span:nth-child(2n+\u0660)', 'span:nth-child(\u0be8)', 'span:nth-of-type(\u2460)', 'p:nth-child(+1)',
+              '.\\0664 1', '.\\\u0664 1', '[id="\\7\u0660 "]', '[id=\\7\u0660]', 'span:nth-child(-n+\u0663)', 'span:nth-child(\u2212n+3)', 'span:nth-child(n\uff0b2)', 'p:nth-child(1\u0660)', 'p:nth-child(0\u06f1)']
+    for parser in PARSERS:
+        out.append({'g': 'chars', 'm': base_doc(parser), 'p': parser, 'ns': NSMAP, 'el': ['id', 'p'], 'e': [],
+                    'q': [(r.choice(SEL_APIS), s) for s in sels + var + digits] + [(r.choice(EL_APIS), s) for s in r.sample(sels + var, 8)]})
+    return out
+
+
+def programs_chars(r, full):
+    return programs_words(r, full) + programs_case(r, full) + programs_text(r, full) + programs_selectors(r, full)
+
+
 def import_programs(r, full):
     """Import sequences after which the programs are run: every sequence of length <= 2 of the eight entry points, every
     further import form alone, and further forms combined with the other package in both orders."""
@@ -705,7 +1003,7 @@ def describe_program(case, through='Beautiful Soup'):
     """The program as (approximate) Python text, for the reader of a replay file; the replay itself runs the stored data."""
     def tgt(t):
         return 'soup' if t is None else (f'soup.find(id={t[1]!r})' if t[0] == 'id' else f'soup.find_all(True)[{t[1]} % n_tags]')
-    lines = [f'soup = BeautifulSoup({case["m"]!r}, {case["p"]!r})']
+    lines = [f'soup = BeautifulSoup({case["m"]!r}, {case["p"]!r}' + ''.join(f', {k}={v!r}' for k, v in (case.get('kw') or {}).items()) + ')']
     for ed in case['e']:
         op = ed[0]
         if op == 'attr':
@@ -800,6 +1098,7 @@ def work_check(chk):
     full = chk.tier != 'quick'
     r = random.Random(chk.seed * 16 + 5)
     cases = programs_values(r, full) + programs_nodes(r, full) + programs_tags(r, full) + programs_random(r, 300 if full else 40)
+    cases += programs_chars(random.Random(chk.seed * 16 + 6), full)           # its own stream: the lists above stay what they were
     progs = import_programs(r, full)
     with tempfile.NamedTemporaryFile('w', suffix='.json', prefix='c16_programs_', delete=False) as f:
         json.dump(cases, f)
